@@ -1,5 +1,5 @@
 From Coq Require Import List Arith Bool String.
-From Wire Require Import Sets Acyclic Solve Names Front Exec Model Emit Cli CopyAst ModelThms NamesThms Bridge ProcessWF Perm PermModel EmitThms.
+From Wire Require Import Sets Acyclic Solve Names Front Exec Model Emit Cli CopyAst ModelThms NamesThms Bridge ProcessWF Perm PermModel EmitThms Regroup RegroupModel.
 From Wire Require Show.
 Import ListNotations.
 
@@ -136,6 +136,27 @@ Theorem C19_show_lists_included_sets : forall fuel key root res, Show.coherent r
   forall n, In n res <-> (Show.name_eqb n key = false /\ exists d, Show.reach root d /\ Show.ns_name d = Some n).
 Proof. exact Show.show_imports_exact. Qed.
 Print Assumptions C19_show_lists_included_sets.
+
+(* C10 (grouping): a nested provider set listed in wire.Build / wire.NewSet can be dissolved into the set that lists
+   it -- its nested sets, providers, struct providers, values, field selections and bindings become the listing
+   set's own.  Whenever the nested program is accepted, so is the regrouped one, every type resolves to the same
+   provider / value / field / argument (entries agree in everything but the record of where they were listed), and
+   the planner's run and the decorated calls are identical.  Repeating the step dissolves any nesting, and with
+   C10_analysis_order_independent the position of the nested set among the arguments does not matter. *)
+Theorem C10_regrouping_preserves_analysis :
+  forall tyorder args id cid cimps cprovs csprovs cvals cflds cbinds imports provs sprovs vals flds binds pm,
+  process_set tyorder args (RSet id (RSet cid cimps cprovs csprovs cvals cflds cbinds :: imports) provs sprovs vals flds binds) = inl pm ->
+  exists pm', process_set tyorder args (RSet id (cimps ++ imports) (cprovs ++ provs) (csprovs ++ sprovs) (cvals ++ vals) (cflds ++ flds) (cbinds ++ binds)) = inl pm' /\
+    (forall t, option_map ecore (look pm t) = option_map ecore (look pm' t)) /\
+    forall out,
+      machine2 (core_pm pm) (List.length args) (solve_fuel pm) [out] (init_state args) [] =
+      machine2 (core_pm pm') (List.length args) (solve_fuel pm') [out] (init_state args) [] /\
+      forall c, decorate pm c = decorate pm' c.
+Proof.
+  intros. destruct (process_set_regroup _ _ _ _ _ _ _ _ _ _ _ _ _ _ _ _ _ H) as (pm' & H1 & C & L & N1 & N2).
+  exists pm'. split; [exact H1|]. split; [exact C|]. intros out. apply regroup_same_plan; auto.
+Qed.
+Print Assumptions C10_regrouping_preserves_analysis.
 
 (* ------------------------------------------------------------------ C09 *)
 Theorem C09_results : forall rs c e, func_output rs = FoOk c e <-> legal_results rs c e.
